@@ -79,7 +79,10 @@ def run(ck):
     for _ in range(60 if thorough else 14):
         tree = deep_tree(rng)
         n = rng.choice([2, 2, 3, 4])
-        sp = rng.choice(["v", "v", "/v", "lv/../v", "v/n0", "keep/../v"])
+        # (not "lv/../v": lv -> v, so the *parent* of that spelling is reached through the directory being removed; once one caller
+        #  is done the others cannot resolve the parent, which is an error by design -- also for a lone caller -- and not the
+        #  "entry already gone" case the property speaks of)
+        sp = rng.choice(["v", "v", "/v", "./v", "v/n0", "keep/../v"])
         jid += 1
         cjobs.append({"id": jid, "tree": tree, "op": {"k": "concurrent", "ops": [{"k": "remove_all", "path": H(sp)} for i in range(n)]},
                       "meta": {"path": sp, "n": n}})
